@@ -410,6 +410,9 @@ func (x *run) observations() (out []seen, problems []*Failure) {
 			problems = append(problems, fail("C04", "identity-resolvable", "unregistered-resolved", "%s succeeded but the identity is not registered", where))
 			continue
 		}
+		if m.NilOutput(o.Ident) {
+			continue // the constructor leaves this output nil: whatever comes back is not judged
+		}
 		via := "type"
 		if o.Ident.Key != "" {
 			via = "key"
@@ -504,6 +507,9 @@ func (x *run) unexpectedErrors(prop string) *Failure {
 			registered = true // group resolution never fails for lack of members
 		} else if _, ok := x.M.Owner(o.Ident); ok {
 			registered = true
+		}
+		if registered && x.M.NilOutput(o.Ident) {
+			continue // nil output: an error is as good as a nil value
 		}
 		if registered && o.Err != nil {
 			return fail(prop, "resolve-ok", kit.Classify(o.Err), "get(s%d,%s) failed: %v", o.Scope, o.Ident, firstLine(o.Err))
